@@ -92,22 +92,37 @@ Theorem no_dangling_junction_refs : forall ops n,
 Proof. intros. apply exec_RI_J; auto. exact model_sem_sane. Qed.
 Print Assumptions no_dangling_junction_refs.
 
-(* full integrity (junction and pipe references) over any sequence - only for nets without pi valves *)
+(* full integrity over sequences that also reindex / fuse / select - only for nets without pi valves *)
 Theorem no_dangling_partial : forall ops n,
   plain n -> (forall o, In o ops -> cover_hyp model_sem o n) -> guards model_sem ops n ->
   no_pipe_refs n -> RI n -> RI (exec model_sem ops n).
 Proof. intros. apply exec_RI_partial; auto. exact model_sem_sane. Qed.
 Print Assumptions no_dangling_partial.
 
-(* REFUTED on the current tree: drop_pipes, the cascade of drop_junctions, and select_subnet leave a
-   pi valve on a missing pipe *)
-Theorem no_dangling_refuted : exists n, RI n /\
-  (ok model_sem (DropP [1%Z]) n = true /\ ~ RI (step model_sem (DropP [1%Z]) n)) /\
-  (ok model_sem (DropJ today_cs [0%Z] true) n = true /\ ~ RI (step model_sem (DropJ today_cs [0%Z] true) n)) /\
-  (ok model_sem (Select today_cs [1%Z; 2%Z]) n = true /\ ~ RI (step model_sem (Select today_cs [1%Z; 2%Z]) n)).
+(* FULL STRENGTH since drop_pipes cascades to the attached valves (bef9209): after any sequence of drop_pipes,
+   drop_elements_at_junctions and drop_junctions(drop_elements=True) neither a junction nor a PIPE reference
+   dangles - pi valves included *)
+Theorem no_dangling_after_drops : forall ops n,
+  all_drops ops = true -> plain n -> pexact n -> (forall o, In o ops -> cover_hyp model_sem o n) ->
+  RI n -> RI (exec model_sem ops n).
+Proof. exact exec_drops_RI. Qed.
+Print Assumptions no_dangling_after_drops.
+
+(* a single dropping operation keeps the pipe references intact whatever the tuple set is *)
+Theorem drop_keeps_pipe_refs : forall o n, drop_op o = true -> pexact n -> RI_P n -> RI_P (step model_sem o n).
+Proof. intros o n Hd Hx H. destruct (pexact_model_coversP n Hx). now apply step_drop_RI_P. Qed.
+Print Assumptions drop_keeps_pipe_refs.
+
+(* REFUTED on the current tree: select_subnet keeps a pi valve whose pipe label happens to be a selected junction
+   label although its pipe is not selected *)
+Theorem no_dangling_refuted : exists n, RI n /\ pexact n /\
+  ok model_sem (Select today_cs [1%Z; 2%Z]) n = true /\ ~ RI (step model_sem (Select today_cs [1%Z; 2%Z]) n).
 Proof.
-  exists witness. split; [apply witness_is_intact|].
-  repeat split; try (vm_compute; reflexivity); intros [_ HP]; revert HP; apply ri_pb_false; vm_compute; reflexivity.
+  exists witness. split; [apply witness_is_intact|]. split.
+  - intros tn r c Hr Hc. apply In_rows_of in Hr. destruct Hr as [t [Ht [<- Hr]]].
+    simpl in Ht. repeat (destruct Ht as [<- | Ht]; [simpl in Hr; repeat (destruct Hr as [<- | Hr]; [simpl in Hc;
+      repeat (destruct Hc as [<- | Hc]; [simpl; try discriminate; auto|]); contradiction|]); contradiction|]). contradiction.
+  - split; [vm_compute; reflexivity|]. intros [_ HP]; revert HP; apply ri_pb_false; vm_compute; reflexivity.
 Qed.
 Print Assumptions no_dangling_refuted.
 
@@ -117,10 +132,11 @@ Theorem frame_rows_unchanged : forall s o n tn r,
 Proof. exact Proofs.frame_rows_unchanged. Qed.
 Print Assumptions frame_rows_unchanged.
 
-(* ... and drop_junctions keeps every element row that references none of the dropped junctions *)
+(* ... and drop_junctions keeps every element row that references none of the dropped junctions (and no pipe) *)
 Theorem frame_untouched_rows_kept : forall s cs js n tn r,
   parent tn = None -> fam "junction" tn = false -> In r (rows_of tn n) ->
   (forall c, In c (r_cells r) -> selJ s cs tn (c_col c) (c_kind c) = true -> ~ In (c_val c) js) ->
+  (forall c, In c (r_cells r) -> selP s tn (c_col c) (c_kind c) = false) ->
   In r (rows_of tn (step s (DropJ cs js true) n)).
 Proof. exact drop_junctions_keeps_untouched. Qed.
 Print Assumptions frame_untouched_rows_kept.
